@@ -5,6 +5,18 @@ HERE = os.path.dirname(os.path.dirname(os.path.abspath(__file__)))
 sys.path.insert(0, os.path.join(HERE, 'engine'))
 props = [json.loads(l) for l in open(os.path.join(HERE, 'properties.jsonl'))]
 
+def rules_suffix(pid):
+    """the rule ids the check evaluates today (texts in RULES.md), taken from the rule table of engine/props/<pid>.py"""
+    import importlib, os, sys
+    sys.path.insert(0, os.path.join(os.path.dirname(os.path.dirname(os.path.abspath(__file__))), 'engine'))
+    try:
+        mod = importlib.import_module('props.' + pid)
+        ids = list(getattr(mod, 'RULES', {}))
+    except Exception:
+        ids = []
+    return (' Rules evaluated (texts in RULES.md): ' + ', '.join(ids) + '.') if ids else ''
+
+
 # property -> (claimed?, level text, level note (what is NOT decided / trusted base), technique)
 CLAIMS = json.load(open(os.path.join(HERE, 'tools', 'claims.json')))
 
@@ -21,7 +33,7 @@ for p in props:
             'evidence_file': '/verif/evidence/%s.json' % pid,
             'replay_cmd_template': './check %s --replay {path}' % pid,
             'engine': 'nl',
-            'level_claimed': {'category': 'other', 'text': c['text'], 'design_ref': 'DESIGN.md section 4, ' + pid},
+            'level_claimed': {'category': 'other', 'text': c['text'] + rules_suffix(pid), 'design_ref': 'DESIGN.md section 4, ' + pid + '; RULES.md'},
             'level_note': c['note'],
             'technique': c['technique'],
         })
